@@ -237,6 +237,10 @@ func (tree *MutableTree) Iterate(fn func(key []byte, value []byte) bool) (stoppe
 			return true, nil
 		}
 	}
+	if err := itr.Error(); err != nil {
+		// the iteration stopped early because of a storage error
+		return false, err
+	}
 	return false, nil
 }
 
